@@ -306,7 +306,10 @@ REPLAY_O4 = r'''
 import sys
 sys.path.insert(0, {root!r})
 from checks import c09
-bad = c09.o4_o5_cases({state!r})
+try:
+    bad = c09.o4_o5_cases({state!r})
+except Exception as e:          # the scenario is made of valid library calls only: an exception out of it is a failure of the library
+    bad = ["raised " + type(e).__name__ + ": " + str(e)[:300]]
 for b in bad: print(b)
 if bad:
     print("REPRODUCED"); sys.exit(1)
